@@ -169,10 +169,76 @@ def generate() -> dict:
         pl.append("")
     pl += ["end AiuVerif.Gen", ""]
     ch2 = write_if_changed(GEN / "Profiles.lean", "\n".join(pl))
-    return {"sites": len(sites), "conditional_sites": sum(1 for s in sites if s["cond"]),
+    ch3 = generate_tables(sites)
+    return {"tables_changed": ch3, "sites": len(sites), "conditional_sites": sum(1 for s in sites if s["cond"]),
             "profiles": {k: (None if v is None else len(v)) for k, v in profs.items()},
             "changed": [n for n, c in [("Sites.lean", ch1), ("Profiles.lean", ch2)] if c],
             "site_list": sites}
+
+
+def live_registration(argv):
+    """(name, line, context) of every accepted register_stage call of the real registration for `argv`"""
+    import tempfile
+    import shutil
+    sys.path.insert(0, str(repo_src().parent))
+    import aiu_trace_analyzer.logger as aiulog
+    from aiu_trace_analyzer.core.acelyzer import Acelyzer
+    from aiu_trace_analyzer.core.processing import EventProcessor
+    from aiu_trace_analyzer.core.stage_profile import StageProfile
+    import aiu_trace_analyzer.export.exporter as output
+    tmp = tempfile.mkdtemp(prefix="aiuverif_")
+    saved = sys.argv
+    sys.argv = ["acelyzer"]
+    try:
+        ace = Acelyzer(["-i", "dummy.json", "-o", os.path.join(tmp, "out.json"), "-D", "0", *argv])
+        aiulog.loglevel = -1
+        rec = []
+
+        class Rec(EventProcessor):
+            def register_stage(self, callback, context=None, **kwargs):
+                before = len(self.stages)
+                super().register_stage(callback, context, **kwargs)
+                if len(self.stages) > before:
+                    rec.append((callback.__name__, sys._getframe(1).f_lineno, context, kwargs))
+        proc = Rec(profile=StageProfile.from_json(ace.args.profile))
+        exporter = output.JsonFileTraceExporter(target_uri=os.path.join(tmp, "out.json"),
+                                                timescale=ace.args.time_unit, settings=vars(ace.args))
+        ace.register_processing_functions(proc, ace.args, exporter)
+        return rec
+    finally:
+        sys.argv = saved
+        shutil.rmtree(tmp, ignore_errors=True)
+
+
+def generate_tables(sites) -> bool:
+    """Gen/Tables.lean: parameters of the contexts the CLI really registers, read off the live objects
+    after executing the real registration (default switches) on a recording processor."""
+    line2idx = {}
+    for i, s in enumerate(sites):
+        line2idx.setdefault(s["line"], i)
+    rec = live_registration([])
+    sort_ctxs = []
+    for name, line, ctx, _kw in rec:
+        if name == "sort_events":
+            idx = line2idx.get(line)
+            if idx is None:
+                raise ShapeNotRecognised(f"sort_events registered from line {line} which is not a translated site")
+            keys = ", ".join(f"({lean_str(k)}, {int(r)})" for k, r in ctx.sortkey)
+            et = "none" if ctx.event_types is None else "some [" + ", ".join(lean_str(t) for t in ctx.event_types) + "]"
+            sort_ctxs.append(f"  ⟨{idx}, [{keys}], {'true' if ctx.global_sort else 'false'}, {et}⟩")
+    tl = ["/- GENERATED by harness/translate.py from the live context objects of the real registration",
+          "   (default switches) of the current /repo tree. Do not edit. -/",
+          "namespace AiuVerif.Gen", "",
+          "/-- an EventSortingContext as registered: site index, parsed sort key (name, 1 or -1), global_sort, event_types -/",
+          "structure SortCtx where",
+          "  site : Nat",
+          "  sortkey : List (String × Int)",
+          "  globalSort : Bool",
+          "  eventTypes : Option (List String)",
+          "deriving Repr, DecidableEq", "",
+          "def sortCtxs : List SortCtx := [", ",\n".join(sort_ctxs), "]", "",
+          "end AiuVerif.Gen", ""]
+    return write_if_changed(GEN / "Tables.lean", "\n".join(tl))
 
 
 if __name__ == "__main__":
